@@ -84,6 +84,27 @@ theorem topo_err_class {g : Graph} (wf : g.WF) {e : String} (h : g.topologicalSo
 
 example : (Graph.ofMapping [(0, [1]), (1, [0])]).topologicalSort = .error "RuntimeError" := by rfl
 
+/-- On a graph with a cycle every routine that sorts first reports the cycle as
+`RuntimeError` (`get_node_depth`, `are_dependent`, `get_longest_path`). -/
+theorem cycle_is_runtime_error {g : Graph} (wf : g.WF) (hc : g.HasCycle) :
+    g.topologicalSort = .error "RuntimeError" ∧
+    (∀ n useMin, g.hasNode n = true → g.getNodeDepth n useMin = .error "RuntimeError") ∧
+    (∀ a b, g.hasNode a = true → g.areDependent a b = .error "RuntimeError") ∧
+    (∀ w, g.getLongestPath w = .error "RuntimeError") := by
+  obtain ⟨e, he⟩ := (topo_err wf).mpr hc
+  have hE := topo_err_class wf he
+  subst hE
+  refine ⟨he, ?_, ?_, ?_⟩
+  · intro n useMin hn
+    unfold Graph.getNodeDepth
+    simp [hn, he]
+  · intro a b ha
+    unfold Graph.areDependent Graph.getNodeDepth
+    simp [ha, he]
+  · intro w
+    unfold Graph.getLongestPath
+    simp [he]
+
 /-! ### `get_longest_path` / `critical_path_runtime` -/
 
 /-- `longest_path_spec`: on a non-empty DAG with positive weights the result is a
@@ -221,6 +242,17 @@ theorem dfs_spec_repaired {g : Graph} (wf : g.WF) {n : Nat} (hn : g.hasNode n = 
 theorem dfs_spec_partial {g : Graph} (wf : g.WF) {n : Nat} (hn : g.hasNode n = true) :
     (g.depthFirst (some n)).2 = none ∧ ∀ m, m ∈ (g.depthFirst (some n)).1 ↔ g.Reach n m :=
   dfs_reach _ wf hn
+
+/-- Ready for the repair: once `Graph.dfsSkipVisitedOnPop` is switched to `true`
+(the one-line change that follows the one-line fix of `/repo`), the public
+`depthFirst` meets the full clause. -/
+theorem dfs_spec_if_repaired (hfix : Graph.dfsSkipVisitedOnPop = true)
+    {g : Graph} (wf : g.WF) {n : Nat} (hn : g.hasNode n = true) :
+    (g.depthFirst (some n)).2 = none ∧ (g.depthFirst (some n)).1.Nodup ∧
+      ∀ m, m ∈ (g.depthFirst (some n)).1 ↔ g.Reach n m := by
+  unfold Graph.depthFirst
+  rw [hfix]
+  exact dfs_spec_repaired wf hn
 
 /-- The current output with repeated yields dropped is the repaired output, on
 every graph and for every start: the defect is the duplicates and nothing else. -/
